@@ -318,7 +318,7 @@ class IRGen:
             self.ops_into(blk, avail, depth, r.randrange(0, 4))
             succ = []
             if nblocks > 1:
-                succ = [r.choice(blocks[1:]) for _ in range(r.choice([0, 1, 2, 2]))] if bi < nblocks - 1 else \
+                succ = [r.choice(blocks[1:]) for _ in range(r.choice([0, 1, 2, 2, 3, 4]))] if bi < nblocks - 1 else \
                     ([r.choice(blocks[1:])] if r.random() < .3 else [])
                 # later blocks referenced before their definition
                 if bi == 0 and nblocks > 2 and r.random() < .5:
